@@ -1278,8 +1278,17 @@ func suiteLiterals(r *Rng, n int, thorough bool, o *Out) {
 // same bytes, to-many linkage as the same multiset of identifiers).
 func remarshalVerdict(res jsonapi.Resource, typ jsonapi.Type, attrs, rels map[string]string) string {
 	relData := map[string][]string{typ.Name: sortedKeys(typ.Rels)}
+	// the field list is asked of the library, as an application re-marshaling "all fields"
+	// does - and judged here: it is the sorted names of the type's attributes and relationships
+	var listed []string
+	if p, msg := guard(func() { listed = typ.Fields() }); p {
+		return "Type.Fields panicked: " + msg
+	}
+	if strings.Join(listed, "\x00") != strings.Join(fieldsIndep(typ), "\x00") {
+		return fmt.Sprintf("re-marshaled resource lacks attribute or relationship: Type.Fields() lists %q, the type has %q", listed, fieldsIndep(typ))
+	}
 	var out []byte
-	if p, msg := guard(func() { out = jsonapi.MarshalResource(res, "", fieldsIndep(typ), relData) }); p {
+	if p, msg := guard(func() { out = jsonapi.MarshalResource(res, "", listed, relData) }); p {
 		return "re-marshaling the accepted resource panicked: " + msg
 	}
 	n, err := parseJSON(out)
